@@ -171,7 +171,19 @@ check('C16', 'exploration',
       'TLA+ document models with runtime-class resolution, evaluated by TLC on every real exchange (trace validation, closed case family)',
       'DESIGN.md 4/C16')
 
-PENDING = ['C03', 'C04', 'C07', 'C17']
+check('C04', 'exploration',
+      'SpyneMutate.tla fixes one application (Shape <- Circle / Square, unrelated Person, a same-named Circle in another namespace, an '
+      'enum, arrays) and the closed set of type-directed mutants of one valid request: xsi:type retagged at every position with every class '
+      'of the interface, XSD builtins and unknown names; hostile leaf texts (attribute names of the model classes); structure where a leaf '
+      'is declared and text where a structure is; every JSON value kind where another is declared; wrapper keys renamed; flat keys '
+      'respelled (699 mutants). Every mutant is sent to ONE long-lived server per configuration, forward and in reverse order '
+      '(XmlDocument / Soap11 / Soap12 x validator None / soft / lxml x polymorphic on / off; JSON / YAML / MessagePack x soft, plain and '
+      'wrapper documents; HttpRpc x soft); the driver reports the shape of every delivered value and TLC (TraceMutate) evaluates '
+      'Called (ran once and every value Conforms to its declared type or a registered subclass) or Refused (not run, Client fault).',
+      'TLA+ mutant family + conformance predicate evaluated by TLC on every real exchange (trace validation)',
+      'DESIGN.md 4/C04')
+
+PENDING = ['C03', 'C07', 'C17']
 
 def main():
     import importlib
